@@ -30,6 +30,35 @@ Theorem C06_info_warnings_are_first_assertions : forall cfg now r i,
 Proof. exact info_warnings_first. Qed.
 Print Assumptions C06_info_warnings_are_first_assertions.
 
+(* ---- "every multiset of Audience values": what the warning does not depend on ---- *)
+(* [covers l1 l2]: every restriction of l1 has a restriction of l2 whose audiences all occur in it. Two assertions whose
+   restriction lists cover each other (any order of restrictions, any order / multiplicity of audiences inside one,
+   repeated restrictions), judged at any two instants, get the same audience warning *)
+Theorem C06_audience_warning_depends_on_member_sets_only : forall cfg now1 now2 a1 a2 w1 w2 c1 c2,
+  verify_conditions cfg now1 a1 = Ok w1 -> verify_conditions cfg now2 a2 = Ok w2 ->
+  a_conditions a1 = Some c1 -> a_conditions a2 = Some c2 ->
+  covers (c_audience_restrictions c1) (c_audience_restrictions c2) ->
+  covers (c_audience_restrictions c2) (c_audience_restrictions c1) ->
+  w_not_in_audience w1 = w_not_in_audience w2.
+Proof. exact audience_warning_depends_on_member_sets_only. Qed.
+Print Assumptions C06_audience_warning_depends_on_member_sets_only.
+
+Theorem C06_non_time_warnings_clock_independent : forall cfg now1 now2 a w1 w2,
+  verify_conditions cfg now1 a = Ok w1 -> verify_conditions cfg now2 a = Ok w2 ->
+  w_not_in_audience w1 = w_not_in_audience w2 /\ w_one_time_use w1 = w_one_time_use w2 /\
+  w_proxy_restriction w1 = w_proxy_restriction w2.
+Proof. exact non_time_warnings_clock_independent. Qed.
+Print Assumptions C06_non_time_warnings_clock_independent.
+
+(* restrictions are conjunctive: more restrictions can only add the warning *)
+Theorem C06_more_restrictions_more_warning : forall cfg now1 now2 a1 a2 w1 w2 c1 c2,
+  verify_conditions cfg now1 a1 = Ok w1 -> verify_conditions cfg now2 a2 = Ok w2 ->
+  a_conditions a1 = Some c1 -> a_conditions a2 = Some c2 ->
+  incl (c_audience_restrictions c1) (c_audience_restrictions c2) ->
+  w_not_in_audience w1 = true -> w_not_in_audience w2 = true.
+Proof. exact more_restrictions_more_warning. Qed.
+Print Assumptions C06_more_restrictions_more_warning.
+
 (* ---- tie to the source text (GenFuncs.v is re-translated from /repo's validate.go on every run) ---- *)
 From V Require Import GenPrelude GenFuncs P_GenFuncs.
 Theorem C06_source_VerifyAssertionConditions_is_the_model : forall cfg now a,
